@@ -4,7 +4,9 @@ import (
 	"bytes"
 	"encoding/hex"
 	"encoding/json"
+	"errors"
 	"fmt"
+	"strings"
 	"unicode/utf8"
 
 	log "github.com/go-spring/log"
@@ -354,6 +356,22 @@ func init() {
 				if want := `{"` + out + `":"` + out + `"}`; jb.String() != want {
 					p.fail(Violation{Clause: "json-encoder-escaping", Key: fmt.Sprintf("%q", s), Detail: fmt.Sprintf("JSON encoder wrote %q, want %q", jb.String(), want)}, hexOf(s))
 				}
+				// the text of a marshalling error goes through the same escaping (both encoders)
+				rb := &bytes.Buffer{}
+				re := log.NewJSONEncoder(rb)
+				re.AppendReflect(c09Bad{s})
+				if lit := rb.String(); len(lit) < 2 || lit[0] != '"' || lit[len(lit)-1] != '"' {
+					p.fail(Violation{Clause: "reflect-error-not-a-json-string", Key: fmt.Sprintf("%q", s), Detail: fmt.Sprintf("AppendReflect of an unmarshallable value whose error text contains %q wrote %q", s, lit)}, hexOf(s))
+				} else if dec, err := strictJSONString([]byte(lit[1 : len(lit)-1])); err != nil || !strings.HasSuffix(dec, wantDecoded(s)) {
+					p.fail(Violation{Clause: "reflect-error-escaping", Key: fmt.Sprintf("%q", s), Detail: fmt.Sprintf("AppendReflect error text containing %q was written as %q: %v (decodes to %q)", s, lit, err, dec)}, hexOf(s))
+				}
+				xb := &bytes.Buffer{}
+				xe := log.NewTextEncoder(xb, "||")
+				xe.AppendKey("k")
+				xe.AppendReflect(c09Bad{s})
+				if got := xb.String(); !strings.HasSuffix(got, out) || !strings.HasPrefix(got, "k=") {
+					p.fail(Violation{Clause: "reflect-error-escaping", Key: fmt.Sprintf("text %q", s), Detail: fmt.Sprintf("text encoder wrote %q for a marshalling error ending in %q, want it to end with %q", got, s, out)}, hexOf(s))
+				}
 				tb := &bytes.Buffer{}
 				te := log.NewTextEncoder(tb, "||")
 				te.AppendKey(s)
@@ -383,5 +401,10 @@ func c09Replay(raw json.RawMessage) []Violation {
 	}
 	return nil
 }
+
+// c09Bad cannot be marshalled; its error text ends with an arbitrary byte string.
+type c09Bad struct{ s string }
+
+func (b c09Bad) MarshalJSON() ([]byte, error) { return nil, errors.New("E:" + b.s) }
 
 func hexOf(s string) string { return hex.EncodeToString([]byte(s)) }
